@@ -168,6 +168,9 @@ class Project(object):
         # like the import system: the first path entry that has the top-level
         # name wins, and submodules are looked up in their package only
         parts = name.split('.')
+        if not all(parts):
+            # 'pkg.', 'pkg..mod', '': no module has an empty name
+            return None, False
         found = None  # type: tuple[str, bool, str | None] | None
         namespace = False
         for p in self.get_path():
